@@ -29,6 +29,14 @@ def mk : IO Handler := do
         dec.set d'
         return showDecRes showUnits r ++ s!" ret {retained d'}"
       | none => return "bad-op"
+    | ["vframe", us] =>       -- the validity predicate of the theorems, evaluated
+      match parseUnits us with
+      | some au => return b2s (decide (ValidFrame au))
+      | none => return "bad-op"
+    | ["vcfg", mx] =>
+      match mx.toNat? with
+      | some m => return b2s (decide (ValidCfg { pt := 0, ssrc := 0, max := m }))
+      | none => return "bad-op"
     | ["pts", pl] =>
       match unhex pl with
       | some b =>
